@@ -128,6 +128,9 @@ func (r *ComDoc) makeFreeSectors(count int, short bool) []SecID {
 // there are no more sectors.
 func (r *ComDoc) readSAT() error {
 	count := r.SectorSize / 4
+	if int64(r.Header.SATSectors) > int64(len(r.MSAT)) {
+		return errors.New("msat has fewer sectors than indicated")
+	}
 	sat := make([]SecID, count*int(r.Header.SATSectors))
 	position := 0
 	for _, sector := range r.MSAT {
